@@ -393,7 +393,7 @@ static Plan generate(uint64_t seed, uint64_t run, const std::map<std::string, st
               op.kind = OP_PATTERN;
               op.args.assign(18, std::nullopt);
               op.args[0] = std::string("https://") + pickl(r, {":sub.example.com", "*.example.com", "example.com", "(.*)"}) +
-                           pickl(r, {"/:id", "/books/:id(\\d+)", "/*", "/a/:b?", ""});
+                           pickl(r, {"/:id", "/books/:id(\\d+)", "/*", "/a/:b?", "", "/caf\xc3\xa9/:id", "/a b/*", "/x.y/:id", "/A%41/../:z"});
               op.args[9] = std::string("https://") + pickl(r, {"www.example.com", "example.com", "x.example.com"}) + pickl(r, {"/42", "/books/7", "/a", "/"});
               op.sub = uint8_t((r.chance(1, 3) ? 1 : 0) | (0 << 1) | (1 << 2));  // ignoreCase one time in three
             } else {
